@@ -152,21 +152,23 @@ def slicePos (len : Nat) (n : Int) : Nat :=
     if m < 0 then len else m.toNat
   else if n > len then len else n.toNat
 
+/-- The `pe.Slice.Offset != nil` part of `sliceElems` (`none` = no offset). -/
+def sliceOffset (a : Arr) : Option Int → Res (List Str)
+  | none => .ok a.list
+  | some off =>
+    match a.idx with
+    | some (x :: xs) =>
+      -- "Sparse arrays slice by index": len(indexes) > 0
+      let last := (x :: xs).getLastD 0
+      let off := if off < 0 then (if off + (last + 1) < 0 then last + 1 else off + (last + 1)) else off
+      let pos := (search (x :: xs) off).1
+      if pos ≤ a.list.length then .ok (a.list.drop pos) else .panic
+    | _ => .ok (a.list.drop (slicePos a.list.length off))
+
 /-- `sliceElems(pe, elems, indexes, false)` with `pe.Slice = {Offset, Length}` already evaluated
     (`none` = absent). -/
 def sliceElems (a : Arr) (offset length : Option Int) : Res (List Str) :=
-  let afterOff : Res (List Str) :=
-    match offset with
-    | none => .ok a.list
-    | some off =>
-      match a.idx with
-      | some (x :: xs) =>
-        let last := (x :: xs).getLastD 0
-        let off := if off < 0 then (if off + (last + 1) < 0 then last + 1 else off + (last + 1)) else off
-        let pos := (search (x :: xs) off).1
-        if pos ≤ a.list.length then .ok (a.list.drop pos) else .panic
-      | _ => .ok (a.list.drop (slicePos a.list.length off))
-  match afterOff with
+  match sliceOffset a offset with
   | .panic => .panic
   | .ok elems =>
     match length with
@@ -272,6 +274,19 @@ def appendZero (a : Arr) (s : Str) : Res Arr :=
       if i0 = 0 then .ok ⟨(x ++ s) :: xs, some (i0 :: is)⟩ else setElem a 0 s
   | [] => setElem a 0 s
 
+/-- The list `setVarWithIndex` clones after `assignVal` handled `a[i]+=s` on an indexed array:
+    `assignVal` ignores `as.Index` and appends `s` to element 0.  When element 0 exists the
+    in-place `prev.List[0] += s` is seen by the clone; otherwise the inserted element is lost
+    (model: the insert reallocates; with spare capacity the real code would instead see a
+    shifted, truncated list — aliasing, outside this model). -/
+def appElemBase (a : Arr) (s : Str) : Res Arr :=
+  match a.list, a.idx with
+  | x :: xs, none => .ok ⟨(x ++ s) :: xs, none⟩
+  | _ :: _, some [] => .panic
+  | x :: xs, some (i0 :: is) =>
+    if i0 = 0 then .ok ⟨(x ++ s) :: xs, some (i0 :: is)⟩ else .ok a
+  | [], _ => .ok a
+
 /-- The array variable `assignVal` returns (`prev.Set = true`), stored as is. -/
 def liftArr (v : Var) : Res Arr → Res Var
   | .ok a => .ok ⟨.indexed, true, v.str, a⟩
@@ -295,18 +310,8 @@ def applyOp (v : Var) : Op → Res Var
     match v.kind with
     | .indexed =>
       -- assignVal first appends `s` to element 0 (the `as.Index` is ignored there) and returns the
-      -- array variable, whose stale `Str` then becomes the value stored at index i.  When element
-      -- 0 exists the in-place `prev.List[0] += s` is seen by setVarWithIndex's clone; otherwise the
-      -- inserted element is lost (model: the insert reallocates; with spare capacity the real
-      -- code would instead see a shifted, truncated list — aliasing, outside this model).
-      let a1 : Res Arr :=
-        match v.arr.list, v.arr.idx with
-        | x :: xs, none => .ok ⟨(x ++ s) :: xs, none⟩
-        | _ :: _, some [] => .panic
-        | x :: xs, some (i0 :: is) =>
-          if i0 = 0 then .ok ⟨(x ++ s) :: xs, some (i0 :: is)⟩ else .ok v.arr
-        | [], _ => .ok v.arr
-      match a1 with
+      -- array variable, whose stale `Str` then becomes the value stored at index i.
+      match appElemBase v.arr s with
       | .ok a1 => setWithIndex v a1 i v.str
       | .panic => .panic
     | _ => setWithIndex v (baseArr v) i (v.str ++ s)
@@ -402,18 +407,20 @@ def specRead (m : SMap) (i : Int) : ReadRes :=
     | some s => .val s
     | none => .unset
 
+/-- The elements whose index is at least the offset; a negative offset counts back from one past
+    the largest index (and selects nothing when it is still negative). -/
+def specOffset (m : SMap) : Option Int → SMap
+  | none => m
+  | some off =>
+    let o := if off < 0 then (if off + (m.maxKey + 1) < 0 then m.maxKey + 1 else off + (m.maxKey + 1)) else off
+    m.filter (fun p => decide (o ≤ p.1))
+
 /-- `${a[@]:off:len}`: the elements whose index is at least the (resolved) offset, the first
     `len` of them.  A negative length is an error in bash ("substring expression < 0"): `none`. -/
 def specSlice (m : SMap) (offset length : Option Int) : Option (List Str) :=
-  let m1 : SMap :=
-    match offset with
-    | none => m
-    | some off =>
-      let o := if off < 0 then (if off + (m.maxKey + 1) < 0 then m.maxKey + 1 else off + (m.maxKey + 1)) else off
-      m.filter (fun p => decide (o ≤ p.1))
   match length with
-  | none => some m1.vals
-  | some l => if l < 0 then none else some (m1.vals.take l.toNat)
+  | none => some (specOffset m offset).vals
+  | some l => if l < 0 then none else some ((specOffset m offset).vals.take l.toNat)
 
 /-! ### Abstraction -/
 
